@@ -1,12 +1,21 @@
 """C19 — chaos: generator and implementation-side monitors
 
-Header  `chaos seed=<u64> [erate=<spec>] lrate=<spec> min_us=<µs> max_us=<µs> [order=<0|1>] [sweep=1]`
+Header  `chaos seed=<u64> [erate=<spec>] lrate=<spec> min_us=<µs> max_us=<µs> [order=<0|1>] [sweep=1] [handles=<k>]`
   rate spec: T<n> = n/2^53 | b<f64 bits> | d<i>[+1|-1] = the i-th f64 of the seed's stream (± 2^-53)
 First op of every case: `probe cfg` (the harness reports the exact thresholds ⌈rate·2^53⌉).
 Requests `arrive <c> tag=<t> inner=<lat>:<out>`.
 
 `sweep=1` cases advance the clock 1 ms at a time and poll everything after each tick, so the
 instant of the inner call is the exact injected latency.
+
+`handles=k`: instance A serves request c with handle c mod k of k clones taken up front (default 0: a fresh
+clone of the pristine service per request); the twin instance is always one handle, never cloned, and
+its `call()` is made at the first poll (A: at `arrive`).
+
+`manual stress threads=<N> calls=<K>`: real-OS-thread stress search on a separate, freshly built and equally
+seeded instance (N threads with a clone each, K calls in total, first poll only). A SEARCH, NOT A PROOF:
+whether a race shows depends on the machine's scheduling. Oracles = the property's clauses (see
+`mon_stress`); a failing run is reported with the threads/calls/counts observed.
 """
 import struct
 from gen.util import kvs, tparse
@@ -70,7 +79,45 @@ def pick_out(rng):
     return "never"
 
 
+STRESS_P = {"quick": 0.025, "thorough": 0.012}
+STRESS_CALLS = {"quick": [40000, 80000, 120000, 200000], "thorough": [50000, 100000, 200000, 400000, 800000]}
+
+
+def gen_stress(rng, tier):
+    """a short case around one real-thread stress run; the budget is the number of calls
+    (about 1.2 M first polls per second on 8 threads of the reference machine)"""
+    seed = rng.choice([0, 1, 42, rng.randint(0, (1 << 64) - 1), rng.randint(0, 1000)])
+    hdr = "chaos seed=%d" % seed
+    mid = lambda: "T%d" % rng.choice([P53 // 2, P53 // 4, P53 - P53 // 8, rng.randint(1, P53 - 1)])
+    r = rng.random()
+    if r < 0.45:                                   # error rate 1: every call must fail, inner never called
+        hdr += " erate=T%d lrate=%s" % (P53, rng.choice(["T0", "T%d" % P53, mid()]))
+    elif r < 0.53:                                 # both rates 0: transparent
+        hdr += rng.choice([" erate=T0 lrate=T0", " lrate=T0"])
+    elif r < 0.63:                                 # latency rate 1 without errors: every call delayed
+        hdr += rng.choice([" erate=T0", ""]) + " lrate=T%d" % P53
+    elif r < 0.75:                                 # latency only
+        hdr += " lrate=%s" % mid()
+    else:
+        hdr += " erate=%s lrate=%s" % (mid(), rng.choice(["T0", mid(), mid(), "T%d" % P53]))
+    mn = rng.choice([0, 0, 1, 3])
+    mx = rng.choice([mn, mn + 1, mn + 4, mn + 9, max(0, mn - 1)])
+    hdr += " min_us=%d max_us=%d" % (mn * 1000, mx * 1000)
+    if "erate" in hdr and rng.random() < 0.4:
+        hdr += " order=1"
+    ops = ["probe cfg"]
+    pre = rng.random() < 0.3
+    if pre:                                        # ordinary requests before: the stress instance is a separate one
+        ops += ["arrive 1 tag=1 inner=0:ok", "poll 1"]
+    ops.append("manual stress threads=%d calls=%d" % (rng.choice([2, 3, 4, 8, 8, 8, 16]), rng.choice(STRESS_CALLS.get(tier, STRESS_CALLS["quick"]))))
+    if rng.random() < 0.5:
+        ops += ["arrive 2 tag=2 inner=0:ok", "arrive 3 tag=3 inner=1:err1", "poll 3", "poll 2", "adv %d" % (max(mn, mx) + 1), "settle"]
+    return {"header": hdr, "ops": ops}
+
+
 def gen(rng, tier):
+    if rng.random() < STRESS_P.get(tier, 0.02):
+        return gen_stress(rng, tier)
     seed = rng.choice([0, 1, 42, 42, (1 << 64) - 1, rng.randint(0, (1 << 64) - 1), rng.randint(0, (1 << 64) - 1), rng.randint(0, 1000)])
     hdr = "chaos seed=%d" % seed
     has_e = rng.random() < 0.85
@@ -81,6 +128,8 @@ def gen(rng, tier):
     hdr += " min_us=%d max_us=%d" % (mn_us, mx_us)
     if has_e and rng.random() < 0.4:
         hdr += " order=1"
+    if rng.random() < 0.3:                         # which handle serves a request must not matter
+        hdr += " handles=%d" % rng.choice([1, 2, 2, 3, 5])
     mn, mx = mn_us // 1000, mx_us // 1000
     top = max(mn, mx)
     ops = ["probe cfg"]
@@ -192,10 +241,69 @@ def _injected(res):
     return res.startswith("err:inner99:")
 
 
+def _decisions(meta):
+    """-> (first-poll order, predicted by the oracle, reported by instance A, reported by the twin) per request"""
+    pred, order, seen, seenb = {}, [], {}, {}
+    for _, m in meta:
+        w = m.split()
+        if len(w) < 3:
+            continue
+        if w[0] == "#pred":
+            pred[int(w[1])] = w[2]
+            order.append(int(w[1]))
+        elif w[0] == "#obs":
+            seen.setdefault(int(w[1]), []).append(w[2])
+        elif w[0] == "#obsb":
+            seenb.setdefault(int(w[1]), []).append(w[2])
+    return order, pred, seen, seenb
+
+
 def mon_determinism(case, lines, meta):
+    """The determinism clause with no reference to what the decision function is: two equally seeded instances are
+    given the same requests in the same order but are driven differently (a: each request served by a clone, call() at
+    arrival; b: one handle, call() only at the first poll); they must behave alike and report the same decision
+    (incl. the latency amount) for every request."""
     i = _scan(case, lines, meta)
+    order, _, seen, seenb = _decisions(meta)
+    for n, c in enumerate(order):
+        if seen.get(c, []) != seenb.get(c, []):
+            return ("same seed, same requests in the same order, but for request %d (the %d. to be first polled; order %s) instance a "
+                    "(served by clones, call() at arrival) decided %s and instance b (one handle never cloned, call() at the first poll) "
+                    "decided %s" % (c, n + 1, order, ",".join(seen.get(c, [])) or "nothing", ",".join(seenb.get(c, [])) or "nothing"))
     if i["twin"]:
-        return "two equally seeded instances given the same requests in the same order behaved differently: %s" % i["twin"][0]
+        return ("two equally seeded instances given the same requests in the same order (a: served by clones, call() at arrival; "
+                "b: one handle never cloned, call() at the first poll) behaved differently: %s" % i["twin"][0])
+    return None
+
+
+def mon_stream(case, lines, meta):
+    """The determinism clause with the function pinned down (stricter than the clause: a change of the decision
+    function that stays deterministic is reported too, and says so): the i-th request to be first polled gets
+    decision i of the seed's reference stream. `#pred c d`: decision i as computed by the harness's free-running oracle
+    generator (never synchronised with the layer) at the i-th first poll; `#obs c d`: what the layer decided
+    for that request (its own event callbacks). Independent of which clone served the request, of when the
+    future was created relative to other requests' polls, of payloads, instants and outcomes."""
+    order, pred, seen, _ = _decisions(meta)
+    for i, c in enumerate(order):
+        got = seen.get(c, [])
+        if got != [pred[c]]:
+            return ("request %d is the %d. request to be first polled (order %s): the layer decided %s for it, but decision #%d of the "
+                    "reference stream of this seed is %s (StdRng::seed_from_u64(seed); per request, in first-poll order: error roll iff "
+                    "error rate > 0, error iff roll < rate; otherwise latency roll iff latency rate > 0, delay iff roll < rate, by "
+                    "random_range(min..=max) iff max > min, else min). Either the decisions are no longer a function of the seed and the "
+                    "order of requests alone, or that function changed."
+                    % (c, i + 1, order, ",".join(got) if got else "nothing", i + 1, pred[c]))
+    return None
+
+
+def mon_stress(case, lines, meta):
+    """Real-thread stress search (`manual stress`): the harness checked, over all calls of all threads, the
+    clauses `error rate 1 => every call fails and the inner service is never called`, `rates 0/0 => transparent`,
+    `every call behaves as the one decision reported for it`, and `the multiset of the K decisions is that of the
+    first K decisions of the seed's stream` (each request draws its rolls atomically). Reported in full."""
+    for _, m in meta:
+        if m.startswith("#stress-fail"):
+            return "parallel stress run violated the property: " + m[len("#stress-fail"):].strip()
     return None
 
 
@@ -311,6 +419,8 @@ def transitions(case, lines, meta=None):
             tags.append("rate-off-grid")
     if cfg.get("sweep") == "1":
         tags.append("sweep")
+    if int(cfg.get("handles", "0")) > 0:
+        tags.append("handles-kept")
     fp = {}
     for l in lines:
         t, w = tparse(l)
@@ -321,6 +431,12 @@ def transitions(case, lines, meta=None):
             e, ll = int(kv["eT"]), int(kv["lT"])
             tags.append("erate-" + ("0" if e == 0 else "1" if e == P53 else "mid"))
             tags.append("lrate-" + ("0" if ll == 0 else "1" if ll == P53 else "mid"))
+        elif w[0] == "stress":
+            kv = kvs(l)
+            tags.append("stress-run")
+            n = int(kv["calls"])
+            tags.append("stress-all-error" if int(kv["errors"]) == n else "stress-all-pass" if int(kv["passed"]) == n
+                        else "stress-all-delay" if int(kv["delayed"]) == n else "stress-mixed")
         elif w[0] == "inner_call":
             tags.append("inner-call")
         elif w[0] == "inner_drop":
@@ -340,12 +456,13 @@ def transitions_meta(case, lines, meta):
 
 
 def nontrivial(case, lines, tags):
-    return "error-injected" in tags or "inner-call" in tags
+    return "error-injected" in tags or "inner-call" in tags or "stress-run" in tags
 
 
 ALL = ["range-eq", "range-inverted", "range-proper", "no-error-injector", "rate-on-a-roll", "rate-off-grid", "sweep",
        "erate-0", "erate-1", "erate-mid", "lrate-0", "lrate-1", "lrate-mid", "inner-call", "dropped-running",
-       "error-injected", "result-ok", "result-err", "result-panic"]
+       "error-injected", "result-ok", "result-err", "result-panic", "handles-kept", "stress-run", "stress-all-error",
+       "stress-all-pass", "stress-all-delay", "stress-mixed"]
 
 LEVEL_NOTE = ("Trusted: Lean kernel; the line-by-line reading of service.rs:64-152 as TR.Model.Chaos.decideG / the poll-level machine, validated by the "
               "sampled correspondence check; rand's StdRng, random::<f64>() (= 53-bit numerator * 2^-53, < 1) and random_range(a..=b) in [a,b], which "
@@ -361,20 +478,27 @@ COMMON = {
     "transitions": transitions,
     "nontrivial": nontrivial,
     "all_transitions": ALL,
-    "model_modules": ["TR.Model.Chaos", "TR.Lemmas.Chaos"],
-    "lean_files": ["TR.Model.Chaos", "TR.Lemmas.Chaos"],
+    "model_modules": ["TR.Model.Chaos", "TR.Lemmas.Chaos", "TR.Lemmas.ChaosStress"],
+    "lean_files": ["TR.Model.Chaos", "TR.Lemmas.Chaos", "TR.Lemmas.ChaosStress"],
     "sizes": (600, 30000),
     "rule": "seeded random cases: seed (fixed and random u64), error/latency rates as thresholds n/2^53 (0, 1, 2^-53, 1-2^-53, 1/2, random), arbitrary "
             "f64 bit patterns incl. subnormal and out-of-range, or placed exactly on / one step next to the i-th roll of the seed's stream; "
             "min/max latency with min=max, min>max, sub-millisecond parts; 1..12 requests, shuffled first-poll order, drops; either 1 ms sweeps "
-            "(exact latency) or random advances biased to min-1/min/max/max+1; every request is also given to a second equally seeded instance; "
+            "(exact latency) or random advances biased to min-1/min/max/max+1; requests served by a fresh clone each or by k kept handles; every "
+            "request is also given to a second equally seeded instance driven differently (one handle, call() at the first poll) and compared with "
+            "decision i of a free-running oracle generator; about 2% (quick) / 1.2% (thorough) of the cases are real-thread stress runs "
+            "(2-16 OS threads on clones of one seeded service, 20k-160k calls quick, 50k-800k thorough; rate 1, rates 0, latency rate 1, mid rates); "
             "distinct = distinct implementation log; non-trivial = at least one decision was taken",
     "trusted": ["transcription of Chaos::call (service.rs:64-152) in TR.Model.Chaos, sampled by the correspondence check",
                 "rand: StdRng::seed_from_u64, random::<f64>() in [0,1) with 53-bit numerators, random_range(a..=b) in [a,b] (abstract generator + contract in the model)",
-                "harness: mirror StdRng synchronised through the layer's public event callbacks, f64->threshold decoding, virtual clock, manual poller",
+                "harness: mirror StdRng synchronised through the layer's public event callbacks, f64->threshold decoding, virtual clock, manual poller; "
+                "free-running oracle StdRng + the harness's own 10-line statement of the decision function (decide_next) for the stream / stress oracles",
+                "std::sync::Mutex gives mutual exclusion (the model's atomic decision block); probed, not proved, by the real-thread stress search",
                 "python diff/monitors"],
     "assumptions": ["the layer is built with a seed; rates in [0,1]; latency bounds compared in whole milliseconds",
-                    "one poll of one call future is atomic (single-threaded runtime); the decision block runs under the generator's mutex"],
+                    "the rolls of one request are drawn atomically (the decision block runs under the generator's mutex); everything else a poll does "
+                    "touches only that request. Single-threaded cases: one poll is one step. Multi-threaded executions are covered by the theorems only "
+                    "through this assumption; the `manual stress` cases search for executions that break it (sampling, not proof)"],
     "level_note": LEVEL_NOTE,
     "level_text": "Theorems TR.Props.C19.*: for every generator (all seeds, any algorithm within rand's contracts), all thresholds, all millisecond "
                   "ranges: the decision list of any run is the prefix of the seed's decision stream (independent of instants, payloads, outcomes, "
@@ -382,12 +506,16 @@ COMMON = {
                   "any run (error_skips_inner) and fails in its first poll (error_result_immediate); rates 0/0 consume no draw and call the inner service "
                   "in the first poll (transparent_*); error rate 1 always fails with one draw and no inner call in any run (always_fails_*); injected "
                   "latency lies in [min,max], equals min when min>=max, and is real virtual time (latency_*); an injected error consumes exactly the error "
-                  "roll (no_latency_on_error). Model tied to the real ChaosLayer by line-for-line agreement with draws taken from a mirror StdRng, plus a "
-                  "directly compared twin instance.",
+                  "roll (no_latency_on_error); any interleaving of the threads' requests gives the same multiset of decisions, all 'error' at rate 1 for "
+                  "any number of calls, and the tallies of every seed's stream pass the model's stress check (interleaving_multiset, interleavings_agree, "
+                  "always_fails_stream, transparent_stream, stress_oracle_sound) — given that a request's rolls are drawn atomically. Model tied to the "
+                  "real ChaosLayer by line-for-line agreement with draws taken from a mirror StdRng, plus a differently driven twin instance, a "
+                  "free-running oracle generator, and a bounded real-thread stress search for the atomicity assumption.",
 }
 
 SPECS = {
     "C19": dict(COMMON, module="TR.Props.C19",
                 monitors=[("c19-determinism-twin", mon_determinism), ("c19-error-skips-inner", mon_error_skips_inner),
-                          ("c19-extremes", mon_extremes), ("c19-latency-bounds", mon_latency)]),
+                          ("c19-extremes", mon_extremes), ("c19-latency-bounds", mon_latency),
+                          ("c19-determinism-stream", mon_stream), ("c19-parallel-stress", mon_stress)]),
 }
